@@ -235,7 +235,7 @@ impl<'a, const BITS: usize, const LIMBS: usize> FromSql<'a> for Uint<BITS, LIMBS
             // Hex strings
             Type::JSON | Type::JSONB => {
                 let raw = if *ty == Type::JSONB {
-                    if raw[0] == 1 {
+                    if raw.first() == Some(&1) {
                         &raw[1..]
                     } else {
                         // Unsupported version
